@@ -215,6 +215,28 @@ def handle (line : String) : String :=
                 (match p.1 with | .fin q => s!"{q.num}/{q.den}" | .inf => "inf") ++ "@" ++ bitsOfFloat p.2))))
           | .error e => "err " ++ errStr e
       | _, _, _ => "bad-input"
+  | "denseprogen" :: scale :: fs :: batches =>
+      -- the dense-time online INTERPRETER (operator dictionary keyed by name, per-update memo, several assertions, constants_sent)
+      -- as translated from the source (GeneratedGlueDn.lean under GlueDn.lean): set_ast(), then one update() per batch;
+      -- `fs`: the assertions, inlined, separated by `##`; output: the list every update() returns (the last assertion's)
+      let parseBatch (b : String) : Option (List (String × Dense.DSig Float)) :=
+        if b.trimAscii.toString == "-" then some [] else
+        ((b.splitOn "&").filter (fun x => x.trimAscii.toString ≠ "")).mapM parseDSig
+      match parseRat scale, ((fs.splitOn "##").filter (fun x => x.trimAscii.toString ≠ "")).mapM (fun x => parseFormula x.trimAscii.toString),
+            (batches.filter (fun b => b.trimAscii.toString ≠ "")).mapM parseBatch with
+      | some sc, some specs, some bs =>
+          let cfg : Dense.DCfg := { scale := sc }
+          let free : List String := (specs.flatMap (fun φ => φ.vars)).eraseDups
+          let ds : List (List (String × Dense.Alg.ASig Float)) := bs.map (fun b => b.map (fun p => (p.1, Dense.Alg.ofDSig p.2)))
+          let st0 : Py.GDn.GSt Float := { ops := [], updated := [], results := [], sent := true, vod := fun _ => [] }
+          match (do let st ← Py.GDn.setAstGDn cfg specs st0; Py.GDn.runSpecsGDn cfg free specs st ds) with
+          | .ok rounds =>
+              let outs := rounds.map (fun r => r.1)
+              if outs.any (fun l => l.any (fun p => p.2.isNaN)) then "undef" else
+              "ok " ++ " ; ".intercalate (outs.map (fun l => if l.isEmpty then "-" else " ".intercalate (l.map (fun p =>
+                (match p.1 with | .fin q => s!"{q.num}/{q.den}" | .inf => "inf") ++ "@" ++ bitsOfFloat p.2))))
+          | .error e => "err " ++ errStr e
+      | _, _, _ => "bad-input"
   | "parse" :: unit :: consts :: hex :: _ =>
       -- front end: text is hex-encoded UTF-8; consts: `K=2.0,J=3`
       let bytes : Option (List UInt8) :=
